@@ -158,12 +158,20 @@ package closest
 //@ # catchment is sent with the query's name/index. (The -d filter and 'nothing better was dropped' are exercised by the
 //@ # replay oracle only: their invariants did not discharge within the time limit.)
 //@ func findClosestN
+//@   # -d D admits exactly the targets whose distance is defined and <= D (inclusive); every admitted target reaches the
+//@   # catchment logic, every other one is skipped: judged at the end of every path through the loop body
+//@   ghost gReached bool = false
+//@   ghost gMissed int = 0
+//@   before if#3: do gReached = true
 //@   modifies cOut
 //@   requires catchmentSize >= 1
 //@   requires forall(t, 0, len(recv(cIn)), len(recv(cIn)[t].Seq) == len(query.Seq))
 //@   requires forall(k, 0, len(query.Seq), isCode(query.Seq[k]))
 //@   requires query.Count_A == 0 && query.Count_C == 0 && query.Count_G == 0 && query.Count_T == 0
 //@   loop 1:
+//@     do-start gReached = false
+//@     do-end if (maxdist == -1.0 || (!isnan(distance) && distance <= maxdist)) != gReached { gMissed++ }
+//@     invariant [c06.radius.inclusive] gMissed == 0
 //@     invariant len(sent(cOut)) == 0 && len(neighbours.catchment) <= catchmentSize && neighbours.qname == query.ID && neighbours.qidx == query.Idx && freshslice(neighbours.catchment)
 //@     invariant implies(len(neighbours.catchment) == catchmentSize, forall(a, 0, catchmentSize, forall(b, a + 1, catchmentSize, !cmpLess(neighbours.catchment[b].distance, neighbours.catchment[b].completeness, neighbours.catchment[a].distance, neighbours.catchment[a].completeness))))
 //@     invariant implies(len(neighbours.catchment) == catchmentSize, neighbours.furthestCompleteness == neighbours.catchment[catchmentSize-1].completeness && (neighbours.furthestDistance == neighbours.catchment[catchmentSize-1].distance || (isnan(neighbours.furthestDistance) && isnan(neighbours.catchment[catchmentSize-1].distance))))
@@ -256,8 +264,8 @@ package closest
 //@     invariant !gErrSeen && !gWriteFailed && 0 <= i && i <= nQ && len(recvd(cErr)) == 0 && len(recvd(cResults)) == i && nQ == len(queries) && len(QResultsArray) == nQ && freshslice(QResultsArray)
 //@     invariant [c12.slots] forall(j, 0, i, QResultsArray[envat(cResults, j).qidx] == envat(cResults, j))
 //@   before call:writeClosest#1: assert [c12.slots] forall(k, 0, nQ, QResultsArray[k] == envat(cResults, resultOf(k)) && QResultsArray[k].qidx == k)
-//@   before call:writeClosest#1: assert [c06.writer.args] arg(1) == measure && arg(2) == out
-//@   before call:splitInput#1: assert [c06.options] sameslice(arg(0), queries) && arg(1) == measure
+//@   before call:writeClosest#1: assert [c06.writer.args] arg(1) == old(measure) && arg(2) == old(out)
+//@   before call:splitInput#1: assert [c06.options] sameslice(arg(0), queries) && arg(1) == old(measure)
 //@   ghost gErrSeen bool = false
 //@   before return#2: do gErrSeen = true
 //@   before return#3: do gErrSeen = true
@@ -288,7 +296,7 @@ package closest
 //@   before call:writeClosestN#1: assert [c12.slots] !table && forall(k, 0, nQ, QResultsArray[k] == envat(cResults, resultOfN(k)) && QResultsArray[k].qidx == k)
 //@   before call:writeClosestNTable#1: assert [c06.writer.args] arg(1) == out && arg(2) == measure
 //@   before call:writeClosestN#1: assert [c06.writer.args] arg(1) == out
-//@   before call:splitInputN#1: assert [c06.options] sameslice(arg(0), queries) && arg(1) == catchmentSize && (arg(2) == maxdist || (isnan(arg(2)) && isnan(maxdist))) && arg(3) == measure
+//@   before call:splitInputN#1: assert [c06.options] sameslice(arg(0), queries) && arg(1) == catchmentSize && (arg(2) == old(maxdist) || (isnan(arg(2)) && isnan(old(maxdist)))) && arg(3) == old(measure)
 //@   ghost gErrSeen bool = false
 //@   ghost gWriteFailed bool = false
 //@   before return#2: do gErrSeen = true
